@@ -65,6 +65,8 @@ var kindTypes = map[string]reflect.Type{
 	"u32":   reflect.TypeOf(uint32(0)),
 	"u64":   reflect.TypeOf(uint64(0)),
 	"int":   reflect.TypeOf(int(0)),
+	"uint":  reflect.TypeOf(uint(0)),
+	"uptr":  reflect.TypeOf(uintptr(0)),
 	"str":   reflect.TypeOf(""),
 	"f64":   reflect.TypeOf(float64(0)),
 	"f32":   reflect.TypeOf(float32(0)),
@@ -105,6 +107,10 @@ func fromInt(k string, v int) reflect.Value {
 		return reflect.ValueOf(uint64(v))
 	case "int":
 		return reflect.ValueOf(v)
+	case "uint":
+		return reflect.ValueOf(uint(v))
+	case "uptr":
+		return reflect.ValueOf(uintptr(v))
 	case "str":
 		if v == 0 {
 			return reflect.ValueOf("")
@@ -161,7 +167,7 @@ func toInt(k string, v reflect.Value) int {
 	switch k {
 	case "i64", "i32", "i16", "i8", "int":
 		return int(v.Int())
-	case "u8", "u16", "u32", "u64":
+	case "u8", "u16", "u32", "u64", "uint", "uptr":
 		return int(v.Uint())
 	case "str":
 		s := v.String()
